@@ -1225,6 +1225,14 @@ class Weaver:
                 log.append((rid, '%s  =>  %s  (x%d)' % (norm(old[1]), norm(new), len(ms))))
                 continue
             cnt = mt.text.count(old)
+            if cnt == 0 and pre_renames:
+                # the declarations were renamed consistently (decl anchors): the substituted expression is looked up under the new names
+                old_r = apply_renames(old, pre_renames)
+                if old_r != old and mt.text.count(old_r) > 0:
+                    new = apply_renames(new, pre_renames)
+                    log.append((rid, 'pattern carried over the renamed declarations: %s' % norm(old_r)))
+                    old = old_r
+                    cnt = mt.text.count(old)
             if cnt == 0:
                 fz = fuzzy_locate(mt.text, old)
                 if fz:
